@@ -1,4 +1,16 @@
 TEXT = {
+ 'C14': {
+  'text': 'Lean 4 theorems: loadParamBytes returns exactly the ABI bytes value (abiBytes, written without machine arithmetic) for EVERY '
+          'payload, head and length word (incl. >= 2^63, >= 2^64-32, 2^256-1) and an error otherwise - never a panic; 0x66 calls the host with '
+          'exactly (ctx.from, key, value) or rejects without host call; without execution context (CALLCODE/DELEGATECALL/STATICCALL) it is '
+          'refused; a write can only be made under ctx.from (c14_attribution); 0x64/0x65 pass exactly (address,key) / the 32-byte hash; fee '
+          '5000 charged first. Fork gate, table membership and fee are regenerated from the running code and closed by decide +kernel. '
+          'Tied by direct runs of the exported table entries and by real bytecode with every call kind at depth 1-3 around Berlin.',
+  'note': 'Trusted: Lean kernel + standard axioms; hand-written model of the three precompiles validated by correspondence; extractor; '
+          'the mapping scenario -> expected ctx.from (storage address of the frame issuing the CALL) is computed by the harness from the '
+          'scenario definition. Frame-level attribution inside EVM.Call (CloneWithCtx arguments) is covered by the bytecode runs.',
+  'technique': 'Lean 4 proof of decoder = ABI specification for all byte strings + host-call correspondence through every call kind',
+ },
  'C12': {
   'text': 'Lean 4 theorems over the one-step machine Journal.step: with well-formed operands the successor state is the old state with '
           'arity operands popped, pc+1, fee 800 deducted, tracer updated and memory, return data, static flag and world EQUAL; the step never '
